@@ -177,7 +177,9 @@ def parse_log(text, harness_name=None):
         m = re.match(r"\s*- Stub: (.*)", l)
         if m:
             res["stubs"].append(m.group(1).strip())
-        if "Status: ERROR" in l or l.startswith("error:") or "CBMC failed" in l or "out of memory" in l.lower():
+        if "out of memory" in l.lower():
+            res["error"] = "solver ran out of memory (ulimit)"
+        elif res["error"] is None and ("Status: ERROR" in l or l.startswith("error:") or "CBMC failed" in l):
             res["error"] = l.strip()[:200]
         i += 1
     return res
@@ -282,7 +284,7 @@ def run_query(q, lane, logdir, playback=True):
         out.update(status="inconclusive", reason="%d checks UNDETERMINED" % p["undetermined"])
         return out
     if not p["verdict"].startswith("SUCCESSFUL"):
-        out.update(status="inconclusive", reason="verdict %s without a failed check" % p["verdict"])
+        out.update(status="inconclusive", reason="verdict %s without a failed check%s" % (p["verdict"], (": " + p["error"]) if p["error"] else ""))
         return out
     if p["covers_unsat"]:
         out.update(status="inconclusive", reason="vacuity witness not satisfied: %s" % p["covers_unsat"][0], covers_unsat=p["covers_unsat"])
